@@ -391,6 +391,17 @@ func c04History(run *evid.Run, r *rand.Rand, env *Env, l *learner, st *steer, h 
 				}
 				ret := time.Since(start).Nanoseconds()
 				st.leave(p.recs)
+				if !p.abandon && len(res) == len(p.in.Entries) {
+					// Nothing was injected and the client did not give up: FAILED or UNKNOWN here is a plain refusal
+					// (no signature, no effect), and it is judged as one - it must be explainable by some order in
+					// which the request is refused.  (Only a request whose client went away is indeterminate.)
+					for i, v := range res {
+						if v == core.ResultFailed || v == core.ResultUnknown {
+							res[i] = core.ResultDenied
+							run.Count("unforced_failures_judged_as_refusals", 1)
+						}
+					}
+				}
 				mu.Lock()
 				ops = append(ops, porcupine.Operation{ClientId: c, Input: p.in, Call: call, Output: c04Out{Verdicts: res}, Return: ret})
 				mu.Unlock()
